@@ -89,7 +89,7 @@ def rule_R5(ctx, R):
                 break
         if not bad:
             res.ok(f["path"])
-    res.need(31, "ACQ-GUARD functions")
+    res.need(26, "ACQ-GUARD functions")
     return res
 
 
@@ -129,7 +129,7 @@ def rule_R4(ctx, R):
                                   "contention without waiting", *_fnloc(ctx, f)))
             else:
                 res.ok(f["path"])
-    res.need(28, "TRY functions")
+    res.need(26, "TRY functions")
     return res
 
 
@@ -176,7 +176,7 @@ def rule_E4r(ctx, R):
                 break
         if not bad:
             res.ok(f["path"])
-    res.need(30, "ACQ-SCOPED functions")
+    res.need(26, "ACQ-SCOPED functions")
     return res
 
 
@@ -211,7 +211,7 @@ def rule_R3key(ctx, R):
                 break
         if not bad:
             res.ok(f["path"])
-    res.need(30, "ACQ-SCOPED functions")
+    res.need(26, "ACQ-SCOPED functions")
     return res
 
 
@@ -437,5 +437,5 @@ def rule_X3(ctx, R):
             res.bad(Violation("X3", f["path"], "mode-of-access", bad, *_fnloc(ctx, f)))
         else:
             res.ok(f["path"])
-    res.need(56, "acquiring APIs")
+    res.need(52, "acquiring APIs")
     return res
